@@ -492,8 +492,11 @@ func c01Worker(c *Ctx, r *Report, prefix string) {
 	ast.Inspect(rng.Body, func(n ast.Node) bool {
 		switch t := n.(type) {
 		case *ast.BranchStmt:
+			// `continue` after the line was handed to processLineSync only skips collecting a non-match
+			if t.Tok == token.CONTINUE && t.Label == nil && continueAfterClassify(c, info, rng, t) {
+				return true
+			}
 			skips = true
-			_ = t
 		case *ast.ReturnStmt:
 			skips = true
 		case *ast.FuncLit:
@@ -536,8 +539,21 @@ func c01Worker(c *Ctx, r *Report, prefix string) {
 	sent := false
 	var sendStmt *ast.SendStmt
 	scope := ast.Node(fi.Decl.Body)
+	// other names of the collected slice (`y := res`, left behind when a helper's result binding is expanded)
+	resNames := map[types.Object]bool{}
+	if resObj != nil {
+		resNames[resObj] = true
+		ast.Inspect(scope, func(n ast.Node) bool {
+			if a2, ok := n.(*ast.AssignStmt); ok && a2.Tok == token.DEFINE && len(a2.Lhs) == 1 && len(a2.Rhs) == 1 && resNames[identObj(info, a2.Rhs[0])] {
+				if lo := identObj(info, a2.Lhs[0]); lo != nil {
+					resNames[lo] = true
+				}
+			}
+			return true
+		})
+	}
 	ast.Inspect(scope, func(n ast.Node) bool {
-		if ss, ok := n.(*ast.SendStmt); ok && resObj != nil && identObj(info, ss.Value) == resObj {
+		if ss, ok := n.(*ast.SendStmt); ok && resObj != nil && resNames[identObj(info, ss.Value)] {
 			sent = true
 			sendStmt = ss
 		}
@@ -638,4 +654,38 @@ func c01Ignore(c *Ctx, r *Report) {
 		r.Check(ok, rule, fi.Name, "TrimSpace(s) != \"\"", c.Pos(fi.Decl.Pos()), "shape: truthiness is non-whitespace content", "Truthy is no longer `strings.TrimSpace(s) != \"\"`: whitespace-only results would count as truthy (or non-empty ones as falsy), changing which lines are ignored")
 	}
 	r.Floor(rule, 3, "IgnoreMatch guard, loop, Truthy")
+}
+
+// continueAfterClassify: the unlabelled continue belongs to the per-line loop itself and sits, as a
+// top-level statement's branch, after the top-level statement that calls processLineSync.
+func continueAfterClassify(c *Ctx, info *types.Info, rng *ast.RangeStmt, br *ast.BranchStmt) bool {
+	// not inside a nested loop of the per-line loop
+	nested := false
+	ast.Inspect(rng.Body, func(n ast.Node) bool {
+		switch t := n.(type) {
+		case *ast.ForStmt:
+			if within(t.Body, br.Pos()) {
+				nested = true
+			}
+		case *ast.RangeStmt:
+			if within(t.Body, br.Pos()) {
+				nested = true
+			}
+		}
+		return true
+	})
+	if nested {
+		return false
+	}
+	for _, st := range rng.Body.List {
+		if within(st, br.Pos()) {
+			return false // reached the statement holding the continue before a classify call
+		}
+		for _, ce := range callsIn(st) {
+			if isAnchorCall(c, info, ce, extractorPkg, "(*extractorInstance).processLineSync") {
+				return true
+			}
+		}
+	}
+	return false
 }
